@@ -1208,12 +1208,12 @@ theorem assemble_regionOK {E : Ising} {c : Config} (hg : Good (isingHam E) c) {g
       exact (hsv ov).2 hin'
     have hoth1 : otherVar (Rvb.skeleton E c) e.1 b = some e.2.1 := by
       unfold otherVar; simp only [hgd, if_true]
-    have hoth2 : ∃ ov, otherVar (Rvb.skeleton E c) e.2.1 b = some ov ∧ (ov = e.1 ∨ ov = e.2.1) := by
+    have hoth2 : ∃ ov, otherVar (Rvb.skeleton E c) e.2.1 b = some ov ∧ (ov = e.1 ∨ e.2.1 = e.1) := by
       unfold otherVar
       simp only [hgd]
       by_cases h : e.2.1 = e.1
-      · rw [if_pos h]; exact ⟨_, rfl, Or.inr rfl⟩
-      · rw [if_neg h, if_pos rfl]; exact ⟨_, rfl, Or.inl rfl⟩
+      · rw [if_pos h]; exact ⟨_, rfl, Or.inr h⟩
+      · rw [if_neg h]; exact ⟨e.1, by simp, Or.inl rfl⟩
     rcases hin with hin | hin
     · have hu := hever _ hin
       exact ⟨(hsv _).2 (Or.inl hu), key e.1 hu (Or.inl rfl) _ hoth1⟩
@@ -1221,8 +1221,166 @@ theorem assemble_regionOK {E : Ising} {c : Config} (hg : Good (isingHam E) c) {g
       obtain ⟨ov, hov, hov'⟩ := hoth2
       have hsub := key e.2.1 hu (Or.inr rfl) ov hov
       refine ⟨?_, (hsv _).2 (Or.inl hu)⟩
-      rcases hov' with rfl | rfl
+      rcases hov' with rfl | h
       · exact hsub
-      · exact hsub
+      · rw [← h]; exact (hsv _).2 (Or.inl hu)
+
+/-! ## the whole proposal -/
+
+theorem pickStart_owns (sk : Skeleton) (s : RS) (f : Nat)
+    (h : (pickStart (findConstants sk) s).1.2 = some f) :
+    (pickStart (findConstants sk) s).1.1 < sk.nvars ∧
+      Owns (findConstants sk) (pickStart (findConstants sk) s).1.1 f := by
+  unfold pickStart at h ⊢
+  simp only at h ⊢
+  split at h
+  · rename_i hlt
+    simp only at h
+    injection h with h
+    rw [if_pos hlt]
+    simp only
+    have := pickStart_owner sk _ hlt
+    simp only at this
+    rw [← h]
+    exact ⟨this.1, this.2.1, this.2.2⟩
+  · simp only at h; cases h
+
+theorem winv_empty (sk : Skeleton) : WInv sk [] ({} : WBM) :=
+  ⟨BC.inv_empty, BC.inv_empty, fun _ h => by simp at h, fun _ h => by simp [keysOf, BC.empty] at h,
+    fun p h => by simp at h, fun v h => by simp at h⟩
+
+/-- the boundary manager holding the start cell -/
+def startW (sk : Skeleton) (s : RS) : WBM :=
+  ({} : WBM).pushAdjacent (pickStart (findConstants sk) s).1.1 (pickStart (findConstants sk) s).1.2 1
+
+theorem ginv_start (sk : Skeleton) (s : RS) : GInv sk { w := startW sk s } := by
+  have hw : WInv sk [] (startW sk s) := by
+    unfold startW
+    cases hf : (pickStart (findConstants sk) s).1.2 with
+    | none => exact (push_none (winv_empty sk) (by decide)).1
+    | some f =>
+      obtain ⟨h1, h2⟩ := pickStart_owns sk s f hf
+      exact (push_some (winv_empty sk) (by decide) h1 h2).1
+  exact ⟨hw, rfl, fun i v f hv _ => by simp at hv, fun u hu => by simp at hu⟩
+
+/-- **`RegionOK` of the model's own proposal is derived**: whenever `proposeRegion` (the exact model of
+everything `rvb_update_with_ising_weight` does before `calculate_flip_prob`) does not panic on a Good
+configuration, the region it hands over is well formed — for every RNG script. -/
+theorem proposeRegion_regionOK {E : Ising} {c : Config} (hg : Good (isingHam E) c) (rs : RS)
+    (hp : (proposeRegionCfg E c rs).1.panic = false) :
+    RegionOK E c ((proposeRegionCfg E c rs).1.region E.nvars) := by
+  unfold proposeRegionCfg proposeRegion at hp ⊢
+  simp only at hp ⊢
+  by_cases h1 : ((pickStart (findConstants (Rvb.skeleton E c)) rs).2.panicked ||
+      (pickStart (findConstants (Rvb.skeleton E c)) rs).2.short) = true
+  · rw [if_pos h1] at hp
+    exact absurd hp (by rw [(assemble_eq _ _).2.2.2]; simp)
+  · rw [if_neg h1] at hp ⊢
+    by_cases h2 : (contiguousBits (pickStart (findConstants (Rvb.skeleton E c)) rs).2).2.short = true
+    · rw [if_pos h2] at hp
+      exact absurd hp (by rw [(assemble_eq _ _).2.2.2]; simp)
+    · rw [if_neg h2] at hp ⊢
+      simp only at hp ⊢
+      rw [(assemble_eq _ _).2.2.2] at hp
+      exact assemble_regionOK hg (buildCluster_inv (skeleton_skOK E c) _ _ _ (ginv_start _ rs) hp)
+
+/-! ## the kernel with the model's own proposal law: no hypothesis on the region -/
+
+open Qmc.Dist Qmc.Kernel in
+/-- `MoveOK` without the well-formedness of the region -/
+structure MoveOK' (E : Ising) (N : Nat) (R : Region) (c c' : Config) : Prop where
+  move : RvbMove E c c' R
+  good : GoodN (isingHam E) N c
+  nb : (rvbCodeMult E c R).2 = false
+  nb' : (rvbCodeMult E c' R).2 = false
+
+open Classical in
+/-- the per-region transition probability without the `RegionOK` guard -/
+noncomputable def rvbTP (E : Ising) (N : Nat) (eps : Rat) (R : Region) (c c' : Config) : Rat :=
+  if MoveOK' E N R c c' then
+    transProb (extract E c R).1 (extract E c R).2.1 (extract E c' R).2.1 eps
+  else 0
+
+/-- the model's proposal law: probability, under the finite distribution `μ` of RNG scripts, that
+`proposeRegion` hands over region `R` -/
+def qProp (E : Ising) (μ : List (List Nat × Rat)) : Skeleton → Region → Rat :=
+  fun sk R => proposalProb sk μ (proposesRegion E.nvars R)
+
+/-- **the RVB kernel with the model's own proposal**, no well-formedness guard on the region -/
+noncomputable def rvbKP (E : Ising) (N : Nat) (eps : Rat) (μ : List (List Nat × Rat)) (Rs : List Region)
+    (S : Finset Config) : Config → Config → Rat :=
+  remK S (mixRate (Rvb.skeleton E) Rs (qProp E μ) (rvbTP E N eps))
+
+theorem sum_ne_zero_exists : ∀ (l : List Rat), l.sum ≠ 0 → ∃ x ∈ l, x ≠ 0
+  | [], h => by simp at h
+  | a :: t, h => by
+    by_cases ha : a = 0
+    · rw [List.sum_cons, ha, zero_add] at h
+      obtain ⟨x, hx, hx0⟩ := sum_ne_zero_exists t h
+      exact ⟨x, List.mem_cons_of_mem _ hx, hx0⟩
+    · exact ⟨a, by simp, ha⟩
+
+/-- a region proposed with positive probability from a Good configuration is well formed -/
+theorem regionOK_of_qProp {E : Ising} {μ : List (List Nat × Rat)} {c : Config} {R : Region}
+    (hg : Good (isingHam E) c) (hq : qProp E μ (Rvb.skeleton E c) R ≠ 0) : RegionOK E c R := by
+  unfold qProp proposalProb at hq
+  obtain ⟨x, hx, -⟩ := sum_ne_zero_exists _ hq
+  obtain ⟨sw, hsw, -⟩ := List.mem_map.1 hx
+  rw [List.mem_filter] at hsw
+  obtain ⟨-, hev⟩ := hsw
+  unfold proposesRegion at hev
+  simp only [Bool.and_eq_true, Bool.not_eq_true', beq_iff_eq] at hev
+  obtain ⟨⟨⟨h1, h2⟩, h3⟩, h4⟩ := hev
+  have hreg : R = (proposeRegionCfg E c (RS.ofScript sw.1)).1.region E.nvars := by
+    cases R with
+    | mk sv m0 tg =>
+      simp only at h2 h3 h4
+      unfold Proposal.region proposeRegionCfg
+      subst h2 h3 h4
+      rfl
+  rw [hreg]
+  exact proposeRegion_regionOK hg _ h1
+
+/-- **the guard `RegionOK` is redundant under the model's proposal law**: the two kernels are equal -/
+theorem rvbKP_eq_rvbK (E : Ising) (N : Nat) (eps : Rat) (μ : List (List Nat × Rat)) (Rs : List Region)
+    (S : Finset Config) : rvbKP E N eps μ Rs S = rvbK E N eps (qProp E μ) Rs S := by
+  have hterm : ∀ R a b, qProp E μ (Rvb.skeleton E a) R * rvbTP E N eps R a b =
+      qProp E μ (Rvb.skeleton E a) R * rvbT E N eps R a b := by
+    intro R a b
+    by_cases hq : qProp E μ (Rvb.skeleton E a) R = 0
+    · rw [hq, zero_mul, zero_mul]
+    · congr 1
+      unfold rvbTP rvbT
+      by_cases hm : MoveOK' E N R a b
+      · have hm2 : MoveOK E N R a b := ⟨hm.move, hm.good, regionOK_of_qProp hm.good.2 hq, hm.nb, hm.nb'⟩
+        rw [if_pos hm, if_pos hm2]
+      · have hm2 : ¬ MoveOK E N R a b := fun h => hm ⟨h.move, h.good, h.nb, h.nb'⟩
+        rw [if_neg hm, if_neg hm2]
+  have hmix : mixRate (Rvb.skeleton E) Rs (qProp E μ) (rvbTP E N eps) =
+      mixRate (Rvb.skeleton E) Rs (qProp E μ) (rvbT E N eps) := by
+    funext a b
+    unfold mixRate
+    congr 1
+    apply List.map_congr_left
+    intro R _
+    exact hterm R a b
+  unfold rvbKP rvbK
+  rw [hmix]
+
+open Qmc.Dist Qmc.Kernel in
+/-- **`ising_timestep_invariant_rvb_cut_proposal`**: one Ising `timestep` with the RVB update enabled, the
+RVB step being the kernel `rvbKP` built from the model's own proposal law and with NO hypothesis on the
+proposed regions, leaves the true SSE measure invariant. -/
+theorem ising_timestep_invariant_rvb_cut_proposal (E : Ising) (L : Nat) (he : EdgesOK E) (hg : 0 ≤ E.gamma)
+    (β : Rat) (hβ : 0 < β) (eps : Rat) (hclose : CloseExact E eps) (μ : List (List Nat × Rat))
+    (Rs : List Region) :
+    Invariant (sseCutOn (isingHam E) β (cfgSpace (isingHam E) E.nvars L))
+      (timestepWith (sweepKM (isingHam E) β (cfgSpace (isingHam E) E.nvars L) L)
+        [restr (cfgSpace (isingHam E) E.nvars L)
+          (rvbKP E E.nvars eps μ Rs (cfgSpace (isingHam E) E.nvars L))]
+        (ClusterFamily.ofComponents (isingFrozen (isingEdges E).length E.nvars) (isingHam E) E.nvars L
+          (isingHam_varsOK he)) E.nvars) := by
+  rw [rvbKP_eq_rvbK]
+  exact Qmc.Rvb.Kernel.ising_timestep_invariant_rvb_cut E L he hg β hβ eps hclose _ Rs
 
 end Qmc.Rvb.Derive
